@@ -16,7 +16,7 @@ BIN = os.path.join(ROOT, "build", "h", "C18", "C18_actionx")
 MODEL = os.path.join(ROOT, "models", "C18_trigger.tla")
 CFG = os.path.join(ROOT, "models", "C18_trigger.cfg")
 META = os.path.join(ROOT, "build", "tlc", "C18")
-VARS = ["mr", "mw", "so", "rc", "dl", "el", "gap"]          # order of the state string understood by C18_actionx
+VARS = ["mr", "mw", "so", "rc", "dl", "el", "gap", "id", "od"]          # order of the state string understood by C18_actionx
 
 
 def empty_result(tier, seed):
@@ -63,9 +63,12 @@ def parse_dot(path):
 
 def event(label):
     m = re.match(r"Step\((\d+),\s*(TRUE|FALSE)\)", label)
-    if not m:
-        raise ValueError("unexpected action label " + label)
-    return m.group(1) + ("T" if m.group(2) == "TRUE" else "F")
+    if m:
+        return m.group(1) + ("T" if m.group(2) == "TRUE" else "F")
+    m = re.match(r"Redefine\((\d+)\)", label)
+    if m:
+        return "R" + m.group(1)
+    raise ValueError("unexpected action label " + label)
 
 
 def main():
@@ -103,7 +106,7 @@ def main():
             adj = {}
             for s, lab, d in edges:
                 adj.setdefault(s, []).append((event(lab), d))
-            path = {n: [] for n in init}
+            path = {n: nodes[n].split()[:3] for n in init}          # first definition's mr mw so, then the events
             dq = deque(init)
             while dq:
                 n = dq.popleft()
@@ -120,7 +123,8 @@ def main():
                     f.write("%s | %s | %s | %s\n" % (nodes[s], event(lab), nodes[d], " ".join(path[s])))
                     nlines += 1
             counters.update({"tlc_graph_nodes": len(nodes), "tlc_graph_edges": len(edges), "tlc_initial_states": len(init), "tlc_edges_written": nlines,
-                             "tlc_max_path_length": max((len(p) for p in path.values()), default=0)})
+                             "tlc_redefine_edges": sum(1 for e in edges if e[1].startswith("Redefine")),
+                             "tlc_max_path_length": max((len(p) - 3 for p in path.values()), default=0)})
             if m and (len(nodes) != int(m.group(2))):
                 extra_viol.append({"key": "C18:tla:dump-incomplete", "what": "dot dump has %d nodes, TLC reports %s distinct states" % (len(nodes), m.group(2)), "replay": {}})
             tmp_out = out or os.path.join(work, "edges.json")
@@ -147,7 +151,7 @@ def main():
         res["rule"] = "model tier: TLC on models/C18_trigger.tla + replay of every edge (NOT completed in this run)"
     res["counters"].update(counters)
     res["violations"] += extra_viol
-    res["notes"]["tla_model"] = "models/C18_trigger.tla: MaxRun 3, MaxWait 3, StartOff 2, MaxDt 2; invariants TypeOK CountInv WaitInv StartInv, step property RunStep"
+    res["notes"]["tla_model"] = "models/C18_trigger.tla: MaxRun 3, MaxWait 3, StartOff 2, MaxDt 2, MaxRedef 2 (3 redefinition variants); invariants TypeOK CountInv WaitInv StartInv, step property RunStep"
     res["wall_s"] = time.time() - t0
     if out:
         json.dump(res, open(out, "w"), indent=1)
